@@ -42,6 +42,25 @@ fn bft_batches(quick: &[(&'static str, u64)], thorough: &[(&'static str, u64)], 
         .collect()
 }
 
+fn prim_components() -> Value {
+    json!({
+        "real": ["concurrency (ctx, scope, limiter, prunable_mpsc, sync wrappers, watch)", "bft::create_input_channel (filter + selection function)", "tokio sync primitives on a real current-thread runtime"],
+        "stub": ["clock (ManualClock advanced by the director)", "scheduler choice (gate scheduler)", "client tasks (generated scripts)"],
+        "absent": ["multi-threaded runtime, blocking thread pool"]
+    })
+}
+
+fn prim_assumptions() -> Vec<&'static str> {
+    vec![
+        "interleavings are explored at await-point granularity on one thread; data races inside one poll on a multi-threaded runtime are outside the model",
+        "time is the ManualClock: every deadline in the primitives reads it",
+    ]
+}
+
+fn prim_batches(mode: &'static str, quick: u64, thorough: u64, tier: &str) -> Vec<Batch> {
+    vec![Batch { engine: "prim", mode, runs: if tier == "thorough" { thorough } else { quick } }]
+}
+
 pub fn all() -> Vec<Prop> {
     vec![
         Prop {
@@ -97,11 +116,97 @@ pub fn all() -> Vec<Prop> {
         Prop {
             id: "C16",
             level: "exploration",
-            rule: "replica half (E1): floods of validly signed votes for far-future views from Byzantine validators; after every replica step the sizes of the vote caches must stay within bounds that depend on the committee size only; non-trivial = at least one flood message delivered; distinct = distinct event-log fingerprint",
-            batches: |t| bft_batches(&[("flood", 120)], &[("flood", 3000)], t),
-            expected_probes: || vec!["several_partial_certificates"],
+            rule: "channel half (E3): 2-5 sender tasks and the consumer on the real bft::create_input_channel(), every recv compared with a sequential reference model (one entry per sender and kind, replace-and-move-back on strictly higher view, drop otherwise, drop bad signatures, pop front); non-trivial = a pending message was replaced or a stale one dropped. Replica half (E1): floods of validly signed votes for far-future views from Byzantine validators; after every replica step the sizes of the vote caches must stay within bounds that depend on the committee size only; non-trivial = at least one flood message delivered; distinct = distinct event-log fingerprint",
+            batches: |t| {
+                let mut b = prim_batches("channel", 600, 30_000, t);
+                b.extend(bft_batches(&[("flood", 120)], &[("flood", 3000)], t));
+                b
+            },
+            expected_probes: || vec!["several_partial_certificates", "pending_replaced_by_fresher", "stale_dropped"],
             components: bft_components,
             assumptions: bft_assumptions,
+        },
+        Prop {
+            id: "C15",
+            level: "exploration",
+            rule: "limiter half (E3): one evaluation = 1-6 client tasks doing acquire(n)/hold/drop/cancel on the real Limiter under a seeded schedule with director-controlled clock advances; oracles: token-bucket bound over every pair of grants, arrival-order service, no leak after cancellations, nothing above burst granted; non-trivial = at least two grants; distinct = distinct event-log fingerprint",
+            batches: |t| prim_batches("limiter", 3000, 200_000, t),
+            expected_probes: || vec![],
+            components: prim_components,
+            assumptions: prim_assumptions,
+        },
+        Prop {
+            id: "C17",
+            level: "exploration",
+            rule: "one evaluation = one generated task-tree program (main/background tasks, tasks spawning tasks, joins, nested scopes, cancel(), errors, panics, caller deadline) on the real scope::run! under a seeded schedule; oracle over the start/end/active event log vs. the scope's return; non-trivial = at least 2 tasks; distinct = distinct event-log fingerprint",
+            batches: |t| prim_batches("scopes", 4000, 300_000, t),
+            expected_probes: || vec!["nested_scope", "several_failures", "task_panicked"],
+            components: prim_components,
+            assumptions: || {
+                let mut a = prim_assumptions();
+                a.push("async tasks only: blocking tasks (spawn_blocking / run_blocking!) are not exercised in this revision");
+                a
+            },
+        },
+        Prop {
+            id: "C08",
+            level: "exploration",
+            rule: "one evaluation = a genuine certified chain (real signatures, 1-4 validators, 4-140 blocks, optional pre-genesis prefix) plus invalid variants submitted by 2-6 concurrent tasks to the real EngineManager, readers, and a SimEngine whose persistence lags, jumps ahead by a side channel, prunes, and is restarted from the durable state; non-trivial = at least two blocks handed to the execution layer through the manager; distinct = distinct event-log fingerprint. The same manager also runs under consensus + sync + crashes in every E1 run (gap and conflict oracles are always on there).",
+            batches: |t| {
+                let mut b = prim_batches("store", 600, 30_000, t);
+                b.extend(bft_batches(&[("swarm", 60)], &[("swarm", 1500)], t));
+                b
+            },
+            expected_probes: || vec!["blocks_persisted_through_manager", "cache_capacity_crossed"],
+            components: || json!({
+                "real": ["engine (EngineManager, BlockStore, runner tasks: persisted-state watcher, queueing task)", "roles (block / certificate verification)", "crypto (BLS12-381)", "concurrency"],
+                "stub": ["execution layer + disk (SimEngine: lagging, jumping, pruning, failing reads, restarts)", "submitters / readers (generated scripts)", "clock, scheduler choice"],
+                "absent": ["peers answering get_block RPCs (covered when the node engine is built)"]
+            }),
+            assumptions: prim_assumptions,
+        },
+        Prop {
+            id: "C12",
+            level: "exploration",
+            rule: "pool half (E3): 2-6 tasks open and close 'connections' (insert / hold / remove) on the real PoolWatch with a random allowed set and quota; invariant after every step (one entry per key, outsiders <= quota), admission decisions compared with a reference set model, quota-leak check at the end; non-trivial = at least one refusal; distinct = distinct event-log fingerprint. The handshake half needs the simulated TCP seam (not built in this revision).",
+            batches: |t| prim_batches("pool", 3000, 200_000, t),
+            expected_probes: || vec!["duplicate_connection_refused", "quota_refusal"],
+            components: || json!({
+                "real": ["network::pool::PoolWatch + watch::Watch (via hook H4)", "concurrency"],
+                "stub": ["connections (scripted tasks)", "scheduler choice"],
+                "absent": ["handshakes, noise, TCP accept loop (handshake half of C12 not claimed yet)"]
+            }),
+            assumptions: prim_assumptions,
+        },
+        Prop {
+            id: "C18",
+            level: "exploration",
+            rule: "one evaluation = 2-3 real address books receiving the same announcement batches (valid, stale, equal (version,timestamp), forged signature, altered content, duplicate key in batch, outsiders, extreme versions/timestamps) from concurrent peer tasks in different orders; every batch verdict and the final book compared with a reference map, entries re-verified independently; books compared with each other when convergence is owed; non-trivial = an entry was replaced or a batch rejected",
+            batches: |t| prim_batches("addrs", 1500, 60_000, t),
+            expected_probes: || vec!["batch_rejected", "entry_replaced_by_newer", "convergence_checked"],
+            components: || json!({
+                "real": ["network::gossip::ValidatorAddrsWatch / ValidatorAddrs::update (via hook H4)", "roles (NetAddress, signatures)", "crypto"],
+                "stub": ["peers (scripted tasks pushing batches)", "scheduler choice"],
+                "absent": ["push_validator_addrs RPC transport"]
+            }),
+            assumptions: prim_assumptions,
+        },
+        Prop {
+            id: "C19",
+            level: "exploration",
+            rule: "one evaluation = requester tasks (some cancelled) and 1-5 peer-worker tasks (accept -> succeed / fail / abandon) on the real fetch queue with growing availability announcements, then a fair suffix (everyone has everything, always succeeds); history oracles: single holder, inside announced range, lowest outstanding request within the accept window, re-issue after failure, cancelled requests disappear, completion in the suffix; non-trivial = at least two accepts",
+            batches: |t| prim_batches("fetch", 3000, 200_000, t),
+            expected_probes: || vec!["request_handed_out_again_after_failure"],
+            components: || json!({
+                "real": ["network::gossip::fetch::Queue (via hook H4)", "concurrency (scope, watch, oneshot)"],
+                "stub": ["peers and requesters (scripted tasks)", "clock, scheduler choice"],
+                "absent": ["get_block RPC, real gossip connections"]
+            }),
+            assumptions: || {
+                let mut a = prim_assumptions();
+                a.push("every block number is requested by one requester at a time (as the block fetcher does); peers' announced ranges only grow");
+                a
+            },
         },
         Prop {
             id: "C10",
@@ -205,6 +310,7 @@ pub fn run_case(engine: &str, mode: &str, seed: u64, keep_log: bool, focus: &str
             let out = bft::run_one(&cfg, &plan, &opts);
             bft_result(mode, &cfg, &out)
         }
+        "prim" => crate::prim::run_case(mode, seed, keep_log).0,
         _ => panic!("unknown engine {engine}"),
     }
 }
@@ -217,6 +323,7 @@ pub fn run_case_logged(engine: &str, mode: &str, seed: u64) -> (CaseResult, Vec<
             let out = bft::run_one(&cfg, &plan, &opts);
             (bft_result(mode, &cfg, &out), out.log)
         }
+        "prim" => crate::prim::run_case(mode, seed, true),
         _ => panic!("unknown engine {engine}"),
     }
 }
@@ -228,6 +335,11 @@ pub fn write_replay(engine: &str, mode: &str, seed: u64, prop: &str, r: &CaseRes
         "bft" => {
             let (cfg, plan, _) = bft_case(mode, seed);
             json!({"cfg": cfg, "plan": plan})
+        }
+        // Primitive scenarios are a pure function of (mode, seed); the trace is attached.
+        "prim" => {
+            let (_, log) = crate::prim::run_case(mode, seed, true);
+            json!({"trace": log})
         }
         _ => return None,
     };
@@ -245,6 +357,7 @@ pub fn write_replay(engine: &str, mode: &str, seed: u64, prop: &str, r: &CaseRes
 
 pub fn replay_case(engine: &str, doc: &Value) -> (CaseResult, Vec<String>) {
     match engine {
+        "prim" => crate::prim::run_case(doc["mode"].as_str().unwrap_or(""), doc["seed"].as_u64().unwrap_or(0), true),
         "bft" => {
             let cfg: bft::Cfg = serde_json::from_value(doc["case"]["cfg"].clone()).expect("cfg");
             let plan: Vec<bft::Action> = serde_json::from_value(doc["case"]["plan"].clone()).expect("plan");
